@@ -40,7 +40,10 @@ template <class S, class... A> static void lock_set(const Program& P, int hm, A.
     if (audit && P.threads.size() <= 1) {
       g_audit = [&](int cause) { for (int k = 1; k < 64; ++k) if (was[k] && k != removing && !ad.find(k)) { xev("lost", k, cause); was[k] = false; } };
       after_op_hook() = [&](const Op& o) { removing = (o.name == "era" || o.name == "eraf") ? (int)o.arg(0) : -1; if (o.name == "clear") for (int k = 0; k < 64; ++k) was[k] = false;
-        g_audit((g_op_flags & 1) ? 1 : 4); for (int k = 1; k < 64; ++k) was[k] = ad.find(k); g_op_flags = 0; removing = -1; }; }
+        g_audit((g_op_flags & 1) ? 1 : 4);
+        // the key of an insert-like operation must be present afterwards (insert fails only if the key exists): the element being inserted can be the one that is lost
+        if (o.name == "ins" || o.name == "emp" || o.name == "insf" || o.name == "upd1") { int k = (int)o.arg(0); if (k > 0 && k < 64 && !ad.find(k)) xev("lost", k, (g_op_flags & 1) ? 1 : 4); }
+        for (int k = 1; k < 64; ++k) was[k] = ad.find(k); g_op_flags = 0; removing = -1; }; }
     run_set_program(P, ad, attach, detach); g_audit = nullptr; after_op_hook() = nullptr; } }
 typedef cc::CuckooSet<Item, ck_t<cc::cuckoo::striping<std::recursive_mutex, 2>, cc::cuckoo::list, 0, false>> CK_ST_L; typedef cc::CuckooSet<Item, ck_t<cc::cuckoo::refinable<std::recursive_mutex, 2>, cc::cuckoo::list, 0, true>> CK_RF_L;
 typedef cc::CuckooSet<Item, ck_t<cc::cuckoo::striping<std::recursive_mutex, 2>, cc::cuckoo::vector<2>, 2, false>> CK_ST_V; typedef cc::CuckooSet<Item, ck_t<cc::cuckoo::refinable<std::recursive_mutex, 2>, cc::cuckoo::vector<2>, 2, true>> CK_RF_V;
